@@ -93,16 +93,21 @@ Theorem C11_server_finished_lost_twice_recovers :
   both_agree (round sym (round_losing [] [5; 7]%nat (lose_sets [] [5; 7]%nat))) = true.
 Proof. exact server_finished_lost_twice_recovers. Qed.
 
-(* REFUTED (finding F20, open): the fragment buffer appends in arrival order.  The Certificate split in
-   three, delivered 0,2,1 (or with the middle fragment duplicated) assembles to garbage: the client
-   fails for good (Failed is absorbing, C02_failed_is_absorbing) and the server is left Handshaking;
-   the same three fragments in order are fine. *)
-Theorem C11_convergence_refuted_fragments :
-  (let p := grun (pair_start 1 0) (frag_events [(0, Some 100, 100); (200, None, 160); (100, Some 200, 100)]) in
-   (state_code (p_c p), state_code (p_s p), alive (p_c p)) = (3, 1, false)) /\
-  (let p := grun (pair_start 1 0)
-              (frag_events [(0, Some 100, 100); (100, Some 200, 100); (100, Some 200, 100); (200, None, 160)]) in
-   (state_code (p_c p), state_code (p_s p)) = (3, 1)) /\
-  (let p := grun (pair_start 1 0) (frag_events [(0, Some 100, 100); (100, Some 200, 100); (200, None, 160)]) in
-   (state_code (p_c p), last_fail (p_c p), length (sent (p_cout p))) = (1, 0, 4%nat)).
-Proof. exact (conj fragments_out_of_order_fail (conj fragment_duplicate_fail fragments_in_order_fine)). Qed.
+(* Reassembly after 03019cb (formerly finding F20): a buffer fed with legal fragments of ONE message, in
+   ANY order and with ANY duplicates or cut points, only ever holds a prefix of that message: each step
+   either leaves it incomplete (still a prefix) or completes it to exactly that message. *)
+Theorem C11_reassembly_any_order :
+  forall (T : Type) (C : crypto T), (forall a, t_eqb C a a = true) ->
+  forall (b : body T) (total : Z) (c : ctx T) (f : frag T) c' ob,
+  b <> BGarbled -> hfrag b total f ->
+  (inc_seq c = f_seq f -> chain b 0 (inc c) (inc_len c)) ->
+  reassemble C c f = (c', ob) ->
+  (ob = None /\ inc_seq c' = f_seq f /\ chain b 0 (inc c') (inc_len c')) \/
+  (ob = Some b /\ inc c' = [] /\ inc_len c' = 0).
+Proof. exact @reassemble_honest. Qed.
+
+(* the F20 witnesses as regressions (symbolic instance): the Certificate in three fragments in all six
+   orders and with duplicated fragments never fails the client, and one retransmission of the flight lets
+   it continue (it sends ClientKeyExchange, ChangeCipherSpec, Finished) *)
+Theorem C11_fragments_any_order_heal : forallb frag_ok frag_orders = true.
+Proof. exact fragments_any_order_heal. Qed.
